@@ -319,19 +319,32 @@ def rule_d(ck, u):
                        'hands the core loop exactly the %d-bit pattern of n, zero-extended to 64 bits' % w if ok else
                        'value handed to the core loop is not the zero-extended %d-bit pattern of n: %r' % (w, v))
     # encode guard constants: avail < MAX for the width
-    eng = sym.Engine(u, sizeof={})
+    # whichever way the room is computed (byte_buffer_avail or size - used spelled out): the encoder refuses exactly when
+    # fewer than the width's maximum are free
+    eng = sym.Engine(u, sizeof={}, other_units=[cast.load('src/byte-buffer.c')])
     for w, mx in ((32, 5), (64, 10)):
         for sgn in 'us':
             name = 'varint_encode_%s%d' % (sgn, w)
             if u.fn(name) is None:
                 continue
             ps = eng.paths(name)
-            refusing = [p for p in ps if p.ret is not None and p.ret[0] == 'c' and p.ret[1] < 0]
-            ok = False
-            for p in refusing:
-                for c in p.cond_terms():
-                    if c[0] == 'cmp' and c[1] == '<' and c[2][0] == 'call' and c[2][1] == 'byte_buffer_avail' and c[3] == C(mx):
-                        ok = True
+            bpar = [q['name'] for q in u.params(name) if '*' in cast.qual_type(q)]
+            if not bpar:
+                ck.broken('C14.d', name + ':room', cast.where(u.fn(name)), 'no buffer parameter')
+                continue
+            B = ('v', bpar[0])
+            AVAIL = L(('f', B, 'size')) - L(('f', B, 'used'))
+            nref = 0
+            ok = True
+            for p in ps:
+                facts = eng.path_facts(p)
+                if p.ret is not None and p.ret[0] == 'c' and p.ret[1] < 0:
+                    nref += 1
+                    if not eng.entails(facts, AVAIL - (mx - 1)):
+                        ok = False
+                elif not eng.entails(facts, Lin.const(mx) - AVAIL):
+                    ok = False
+            ok = ok and nref >= 1
             ck.verdict(ok, 'C14.d', name + ':room', cast.where(u.fn(name)),
                        'refuses unless %d octets are available' % mx if ok else
                        'does not refuse when fewer than %d octets are available' % mx)
